@@ -592,7 +592,22 @@ func (vc *VC) applyContract(fr *Frame, instr ssa.Instruction, spec *FuncSpec, na
 		vc.assume(st, fmt.Sprintf("(> %s %s)", res.T, vc.get(pre, vc.nextComp())))
 	}
 	for _, c := range spec.Ensures {
+		// a postcondition that mentions the callee's own local variables is checked in the callee only;
+		// it says nothing a caller could use
+		nf := len(vc.fatal)
 		f := vc.trBool(mkEnv(st, pre, results), c.E)
+		if len(vc.fatal) > nf {
+			onlyUnknown := true
+			for _, m := range vc.fatal[nf:] {
+				if !strings.HasPrefix(m, "spec: unknown identifier") {
+					onlyUnknown = false
+				}
+			}
+			if onlyUnknown {
+				vc.fatal = vc.fatal[:nf]
+				continue
+			}
+		}
 		vc.assume(st, f)
 	}
 	return res
